@@ -36,7 +36,7 @@ def judge(ctx, tr, driver, cfg=None, unit=10):
     ev = vlib.read_ndjson(tr)
     for f in fails:
         e = ev[f["i"] - 1]
-        ctx.report(classify(e, f["mon"], unit), {"driver": driver, "events": [e]})
+        ctx.report(dict(classify(e, f["mon"], unit), conforms=f.get("conforms", True)), {"driver": driver, "events": [e]})
     return ev
 
 
